@@ -105,7 +105,7 @@ fn main() {
     let max_emit = scale(if thorough { 1500 } else { 220 });
 
     // ---------------------------------------------------------------- (A) whole files
-    let nfiles = scale(if thorough { 6000 } else { 700 });
+    let nfiles = scale(if thorough { 30000 } else { 700 });
     for i in 0..nfiles {
         let ch = match rng.below(5) { 0 => 1, 1 | 2 => 2, _ => rng.range(1, 8) as usize };
         let bps = match rng.below(5) { 0 => *rng.pick(&[8u32, 12, 16, 20, 24, 32]), 1 => 32, 2 => *rng.pick(&[1u32, 2, 3, 4, 5, 31, 17, 25]), _ => rng.range(1, 32) as u32 };
@@ -212,7 +212,7 @@ fn main() {
     }
 
     // ---------------------------------------------------------------- (B) raw frame streams
-    let nsub = scale(if thorough { 3000 } else { 400 });
+    let nsub = scale(if thorough { 15000 } else { 400 });
     for _ in 0..nsub {
         let cfg = GenCfg { subset: true, allow_pred_overflow: rng.chance(1, 6), max_unary: 200 };
         let nfr = rng.range(1, 4) as usize;
